@@ -12,6 +12,8 @@ mod e1;
 mod genr;
 mod oracles;
 mod prog;
+#[cfg(feature = "e3")]
+mod proto;
 mod props;
 mod refcyc;
 mod refi;
